@@ -285,7 +285,10 @@ class Note(object):
         name = ""
         octave = 0
         for x in shorthand:
-            if x in ["a", "b", "c", "d", "e", "f", "g"]:
+            if name and x in ["#", "b"]:
+                # after the note letter a "b" is a flat sign, not the note B
+                name += x
+            elif x in ["a", "b", "c", "d", "e", "f", "g"]:
                 name = str.upper(x)
                 octave = 3
             elif x in ["A", "B", "C", "D", "E", "F", "G"]:
